@@ -459,7 +459,8 @@ def run_kani_unit(u, tier, scratch, pid, known):
     res["build_s"] = round(wall, 1)
     if rc != 0 or to:
         res["verifier_output"] = out[-6000:]
-        return undecided(res, "kani build failed (front-end error in generated crate)" if not to else "kani build timeout")
+        errs = [l for l in out.split("\n") if l.startswith("error")][:3]
+        return undecided(res, ("kani build failed (front-end error in generated crate): " + " | ".join(errs)) if not to else "kani build timeout")
     res["checker_cmd"] = "cargo kani " + " ".join(cargo_args + KANI_FLAGS + u.get("kani_flags", [])) + " --harness <h> --exact"
 
     def one(h):
